@@ -347,6 +347,7 @@ static void gen_c02(uint64_t seed, uint64_t run, const std::string& tier, Plan& 
       if (g.r.chance(1, 15)) op.fault = g.r.chance(1, 2) ? FT_STRBUF_FAIL : FT_NODESTACK_FAIL;
     }
     else if (m < 11) { Op& op = g.add("ParseOnDemand"); op.a.push_back(g.slot()); op.s.push_back(""); std::string t = g.text_valid(3, 4); if (g.r.chance(1, 3)) t = g.mutate(t); op.s.push_back(t); op.s.push_back(g.pspec(3)); }
+    else if (m < 13 && g.r.chance(1, 6)) { Op& op = g.add("PoolClearReparse"); op.a.push_back((int64_t)(g.r.below(2) * 3)); op.s.push_back(""); op.s.push_back(g.r.chance(1, 4) ? g.mutate(g.text_valid(2, 3)) : g.text_valid(3, 4)); }
     else if (m < 13 && g.r.chance(1, 5)) {   // a JSON text carried in a string member of a pool document, then parsed into that same document
       int64_t sl = (int64_t)(g.r.below(2) * 3); std::string pth = g.path();
       Op& st = g.add("SetStr"); st.a = {sl, 1}; st.s = {pth, g.r.chance(1, 4) ? g.mutate(g.text_valid(2, 3)) : g.text_valid(2, 3)};
@@ -530,6 +531,10 @@ static void gen_c19(uint64_t seed, uint64_t run, const std::string& tier, Plan& 
       if (g.r.chance(1, 25)) op.fault = g.r.chance(1, 2) ? FT_STRBUF_FAIL : FT_NODESTACK_FAIL;
       if (g.r.chance(1, 3)) { Op& o2 = g.add("Serialize"); o2.a.push_back(sl); o2.s.push_back(""); o2.a.push_back(0); }
       if (g.r.chance(1, 4)) g.mutation_op();
+    }
+    if (g.r.chance(1, 5)) {   // reclaim the pool and start over with this document (skipped unless it owns a pool)
+      Op& op = g.add("PoolClearReparse"); op.a.push_back(sl); op.s.push_back(""); op.s.push_back(model::write(model::gen_value(g.r, go2)));
+      if (g.r.chance(1, 2)) { Op& o2 = g.add("ParseSchema"); o2.a.push_back(sl); o2.s.push_back(""); o2.s.push_back(model::write(model::gen_value(g.r, go2))); }
     }
   }
 }
